@@ -153,6 +153,7 @@ def run(rep):
     # every call of it (tools/attactions.py, shared with C08)
     import attactions
     att_cov = attactions.stage(rep, tools, 'C02', kills=True)
+    import c02late; late_cov = c02late.stage(rep, tools)    # failures (injected / by path length) AFTER the original was removed
     kills = 0
     corr_bad = []
     for r in results:
@@ -177,6 +178,7 @@ def run(rep):
         'samples': [r for r in results if r['kill'] is not None][:3],
         'kill_points': kills,
         'actions_inside_attachment_blocks': att_cov,
+        'failures_after_the_commit_point': late_cov,
         'correspondence_mismatches': len(corr_bad),
     })
 
@@ -190,6 +192,11 @@ def replay(rep, path):
     if j.get('stage') == 'attachment-actions':
         import attactions
         attactions.replay(tools, j)
+        rep.coverage.update({'evaluations': 1, 'distinct_nontrivial': 1})
+        return
+    if j.get('stage') == 'late-failure':
+        import c02late
+        c02late.replay(tools, j)
         rep.coverage.update({'evaluations': 1, 'distinct_nontrivial': 1})
         return
     spec = [s for s in ws.corpus() if s.name == j.get('scenario')]
